@@ -1,5 +1,6 @@
 import SqlModel.Pipeline
 import SqlProofs.SplitBlock
+import SqlProofs.SplitHeader
 import SqlProps.C05
 /-!
 # C17 — procedural bodies (CREATE … BEGIN … END;) stay one statement
@@ -52,6 +53,48 @@ theorem create_one_statement (pre post : List SUnit)
     refine ⟨⟨⟨⟨hh', q⟩, ?_⟩, hs⟩, ht⟩
     rw [r]; exact Int.le_refl 0
   · exact hpost u hu
+
+/-- **the same with a syntactic header**: the header is `c :: hs` where `c` is any token of kind `create` (a DDL keyword whose
+unified spelling starts with CREATE — `create`, `CREATE  OR\tREPLACE`, …) and `hs` any token sequence accepted by the decidable
+`hdrOK` (balanced parentheses, only tokens without effect on the splitter, no `;` outside parentheses, GO rule silent):
+`PROCEDURE p (a INT, b INT)`, `FUNCTION f() RETURNS int AS`, `TRIGGER t BEFORE INSERT ON x FOR EACH ROW` (an IF/FOR/WHILE/CASE keyword
+is accepted in the header: the splitter ignores it while no BEGIN is open).  A DECLARE section before BEGIN is refused — the real
+splitter never closes the level it opens.  No hypothesis mentions flags or levels any more. -/
+theorem create_one_statement_syntactic_header (pre post : List SUnit)
+    (hpre : ∀ u ∈ pre, u.ok defaultSplitCfg = true) (hpost : ∀ u ∈ post, u.ok defaultSplitCfg = true)
+    (c : Tok) (hs : List Tok) (hc : kindIs defaultSplitCfg c .create = true) (hh : hdrOK defaultSplitCfg 0 hs = true)
+    (b e semi : Tok) (trail : List Tok)
+    (hb : kindIs defaultSplitCfg b .begin_ = true) (he : kindIs defaultSplitCfg e .end_ = true)
+    (items : List Item) (hw : Item.wfL defaultSplitCfg items = true)
+    (hsm : isSemi semi = true) (ht : trail.all (fun t => defaultSplitCfg.eos.contains t.tt) = true) :
+    let cu : SUnit := ⟨(c :: hs) ++ ([b] ++ Item.renderL items ++ [e]), semi, trail⟩
+    splitProcess defaultSplitCfg ((pre ++ [cu] ++ post).flatMap SUnit.toks) = .ok ((pre ++ [cu] ++ post).map SUnit.toks) := by
+  obtain ⟨q, r⟩ := create_header defaultSplitCfg c hs hc hh
+  have hddl : c.tt = T.DDL := by
+    simp only [kindIs, Bool.and_eq_true, beq_iff_eq] at hc
+    exact create_kind_is_ddl defaultSplitCfg c hc.1
+  have hhead : headNotEos defaultSplitCfg (c :: hs) = true := by
+    simp only [headNotEos, hddl]; decide
+  exact create_one_statement pre post hpre hpost (c :: hs) { isCreate := true } hhead q r rfl rfl rfl
+    b e semi trail hb he items hw hsm ht
+
+/-- non-vacuity of the syntactic header: `create  or replace procedure p ( a int , b varchar ( 10 ) ) as` is accepted -/
+example :
+    (kindIs defaultSplitCfg (tk T.DDL "create  or replace") .create &&
+     hdrOK defaultSplitCfg 0 [tk T.Whitespace " ", tk T.Keyword "procedure", tk T.Name "p", tk T.Punctuation "(",
+       tk T.Name "a", tk T.Builtin "int", tk T.Punctuation ",", tk T.Name "b", tk T.Name "varchar", tk T.Punctuation "(",
+       tk T.Integer "10", tk T.Punctuation ")", tk T.Punctuation ";", tk T.Punctuation ")", tk T.Whitespace " ", tk T.Keyword "as"] &&
+     hdrOK defaultSplitCfg 0 [tk T.Keyword "trigger", tk T.Name "t", tk T.Keyword "before", tk T.DML "insert", tk T.Keyword "on", tk T.Name "x",
+       tk T.Keyword "for", tk T.Keyword "each", tk T.Keyword "row"]) = true := by
+  decide +kernel
+
+/-- the syntactic header is tight where it matters: a `;` outside every parenthesis or an unbalanced parenthesis is refused -/
+example :
+    (hdrOK defaultSplitCfg 0 [tk T.Keyword "procedure", tk T.Name "p", tk T.Punctuation ";"] ||
+     hdrOK defaultSplitCfg 0 [tk T.Keyword "procedure", tk T.Name "p", tk T.Punctuation "("] ||
+     hdrOK defaultSplitCfg 0 [tk T.Keyword "procedure", tk T.Name "p", tk T.Punctuation ")", tk T.Punctuation "("] ||
+     hdrOK defaultSplitCfg 0 [tk T.Keyword "procedure", tk T.Name "p", tk T.Keyword "declare", tk T.Name "x", tk T.Punctuation ";"]) = false := by
+  decide +kernel
 
 /-- non-vacuity: a concrete header and a body with a nested block, IF … END IF (two blanks), a nested CASE expression,
 an inner DECLARE and a LOOP … END LOOP satisfy the hypotheses -/
